@@ -38,8 +38,8 @@ func (p *encPC) WriteTo(b []byte, _ net.Addr) (int, error) {
 	}
 	return len(b), p.bw.Flush()
 }
-func (p *encPC) Close() error                       { return p.c.Close() }
-func (p *encPC) LocalAddr() net.Addr                { return xAddr{} }
+func (p *encPC) Close() error                     { return p.c.Close() }
+func (p *encPC) LocalAddr() net.Addr              { return xAddr{} }
 func (p *encPC) SetDeadline(time.Time) error      { return nil }
 func (p *encPC) SetReadDeadline(time.Time) error  { return nil }
 func (p *encPC) SetWriteDeadline(time.Time) error { return nil }
